@@ -199,6 +199,30 @@ func Contents(names []string) []Content {
 	add("allOf", "inline-complex", func(b *BundleSpec, s int) J {
 		return J{"allOf": []any{simpleObj("a1"), J{"type": "object", "properties": J{"extra": J{"type": "boolean"}}}}}
 	})
+	// compositions of keywords: complex by one keyword, map/array-like by another
+	add("allOfWithAdditionalProperties", "inline-complex", func(b *BundleSpec, s int) J {
+		return J{"allOf": []any{simpleObj("ap1")}, "additionalProperties": J{"type": "string"}}
+	})
+	add("allOfWithAdditionalPropertiesTrue", "inline-complex", func(b *BundleSpec, s int) J {
+		return J{"type": "object", "allOf": []any{simpleObj("ap2"), J{"type": "object", "properties": J{"more": J{"type": "integer"}}}}, "additionalProperties": true}
+	})
+	add("propertiesWithAdditionalProperties", "inline-complex", func(b *BundleSpec, s int) J {
+		return J{"type": "object", "properties": J{"known": J{"type": "string"}}, "additionalProperties": simpleObj("ap3")}
+	})
+	add("allOfWithProperties", "inline-complex", func(b *BundleSpec, s int) J {
+		return J{"allOf": []any{simpleObj("ap4")}, "properties": J{"own": J{"type": "boolean"}}}
+	})
+	add("propertiesWithoutType", "inline-complex", func(b *BundleSpec, s int) J {
+		return J{"properties": J{"untyped": J{"type": "string"}}}
+	})
+	add("allOfOfSingleRef", "inline-complex", func(b *BundleSpec, s int) J {
+		b.Add(RootFile, P(simpleObj("single"), "definitions", "singleBase"))
+		return J{"allOf": []any{LocalRef("singleBase")}}
+	})
+	add("tupleOfRefs", "inline-complex", func(b *BundleSpec, s int) J {
+		b.Add(RootFile, P(simpleObj("tr"), "definitions", "tupRefd"))
+		return J{"type": "array", "items": []any{LocalRef("tupRefd"), LocalRef("tupRefd")}}
+	})
 	// schemas carrying every kind of annotation: moving, cloning or importing them must lose nothing
 	add("richObject", "inline-complex", func(b *BundleSpec, s int) J {
 		return J{"type": "object", "title": "Rich", "description": "rich object", "required": []any{"id"}, "x-ext": J{"k": []any{1, "two"}}, "x-nullable": true,
@@ -257,6 +281,26 @@ func Contents(names []string) []Content {
 		b.Add(AuxA, P(J{"type": "string", "description": "upper"}, "definitions", "Item"), P(J{"type": "integer", "description": "lower"}, "definitions", "item"))
 		return J{"type": "object", "properties": J{"first": J{"$ref": AuxA + "#/definitions/Item"}, "second": J{"$ref": AuxA + "#/definitions/item"}}}
 	}).Aux = true
+	// two definitions whose names are equal up to a character that is special in a URL or a JSON pointer:
+	// anything that truncates or mis-splits the rendered $ref confuses them
+	for _, sep := range []string{"#", "?", "/", "~", " ", "[", "{", "ü"} {
+		sep := sep
+		add("twoAuxNamesEqualUpTo["+sep+"]", "ref-aux-names", func(b *BundleSpec, s int) J {
+			n1, n2 := "nm"+sep+"cat", "nm"+sep+"dog"
+			b.Add(AuxA, P(J{"type": "string", "description": "cat"}, "definitions", n1), P(J{"type": "integer", "description": "dog"}, "definitions", n2))
+			return J{"type": "object", "properties": J{"first": J{"$ref": AuxA + "#/definitions/" + EscName(n1)}, "second": J{"$ref": AuxA + "#/definitions/" + EscName(n2)}}}
+		}).Aux = true
+		add("chainedAuxNamesEqualUpTo["+sep+"]", "ref-aux-names", func(b *BundleSpec, s int) J {
+			n1, n2 := "ch"+sep+"cat", "ch"+sep+"dog"
+			b.Add(AuxA, P(J{"type": "object", "properties": J{"friend": J{"$ref": "#/definitions/" + EscName(n2)}}}, "definitions", n1), P(J{"type": "integer", "description": "dog"}, "definitions", n2))
+			return J{"$ref": AuxA + "#/definitions/" + EscName(n1)}
+		}).Aux = true
+		add("twoLocalNamesEqualUpTo["+sep+"]", "ref-local-names", func(b *BundleSpec, s int) J {
+			n1, n2 := "lc"+sep+"cat", "lc"+sep+"dog"
+			b.Add(RootFile, P(simpleObj("cat"), "definitions", n1), P(J{"type": "array", "items": simpleObj("dog")}, "definitions", n2))
+			return J{"type": "object", "properties": J{"first": LocalRef(n1), "second": LocalRef(n2)}}
+		})
+	}
 	add("twoImportsSameNameTwoFiles", "collide-imports", func(b *BundleSpec, s int) J {
 		b.Add(AuxA, P(simpleObj("fromA"), "definitions", "dup"))
 		b.Add(AuxC, P(simpleObj("fromC"), "definitions", "dup"))
@@ -272,6 +316,32 @@ func Contents(names []string) []Content {
 			P(simpleObj("inA"), "definitions", "inA"))
 		b.Add(AuxC, P(simpleObj("leafC"), "definitions", "leafC"))
 		return J{"$ref": AuxA + "#/definitions/sib"}
+	}).Aux = true
+	add("refAuxChain3", "ref-aux-chain", func(b *BundleSpec, s int) J {
+		// root -> sub/a.json -> sub/deep/b.json -> other/c.json: every hop is relative to the document it is written in
+		b.Add(AuxA, P(J{"type": "object", "properties": J{"m": J{"$ref": "deep/b.json#/definitions/mid3"}}}, "definitions", "chain3"))
+		b.Add(AuxB, P(J{"type": "object", "properties": J{"l": J{"$ref": "../../other/c.json#/definitions/leaf3"}, "own": J{"$ref": "#/definitions/ownB"}}}, "definitions", "mid3"),
+			P(J{"type": "string", "description": "own of b"}, "definitions", "ownB"))
+		b.Add(AuxC, P(simpleObj("leaf3"), "definitions", "leaf3"))
+		return J{"$ref": AuxA + "#/definitions/chain3"}
+	}).Aux = true
+	add("auxDiamondAcrossFiles", "ref-aux-chain", func(b *BundleSpec, s int) J {
+		// one definition of other/c.json reached through two documents, i.e. under two different relative spellings
+		b.Add(AuxA, P(J{"type": "object", "properties": J{"x": J{"$ref": "../other/c.json#/definitions/dc"}, "y": J{"$ref": "deep/b.json#/definitions/db"}}}, "definitions", "da"))
+		b.Add(AuxB, P(J{"type": "object", "properties": J{"z": J{"$ref": "../../other/c.json#/definitions/dc"}}}, "definitions", "db"))
+		b.Add(AuxC, P(simpleObj("dc"), "definitions", "dc"))
+		return J{"$ref": AuxA + "#/definitions/da"}
+	}).Aux = true
+	add("refAuxTwoSpellings", "ref-aux-chain", func(b *BundleSpec, s int) J {
+		// the same auxiliary definition written under two spellings of the same relative file name
+		b.Add(AuxA, P(simpleObj("spelled"), "definitions", "spelled"))
+		return J{"type": "object", "properties": J{"one": J{"$ref": AuxA + "#/definitions/spelled"}, "two": J{"$ref": "./" + AuxA + "#/definitions/spelled"}, "three": J{"$ref": "sub/deep/../a.json#/definitions/spelled"}}}
+	}).Aux = true
+	add("refAuxSameNameDifferentDirs", "collide-imports", func(b *BundleSpec, s int) J {
+		// sub/a.json and sub/deep/b.json each define "same"; a.json's refers to b.json's: imports collide with each other, not with the root
+		b.Add(AuxA, P(J{"type": "object", "properties": J{"inner": J{"$ref": "deep/b.json#/definitions/same"}, "tagA": J{"type": "string"}}}, "definitions", "same"))
+		b.Add(AuxB, P(simpleObj("sameB"), "definitions", "same"))
+		return J{"$ref": AuxA + "#/definitions/same"}
 	}).Aux = true
 	add("selfRecursive", "recursive", func(b *BundleSpec, s int) J {
 		b.Add(RootFile, P(J{"type": "object", "properties": J{"next": LocalRef("node"), "v": J{"type": "string"}}}, "definitions", "node"))
@@ -508,6 +578,34 @@ func OtherFeatures(names []string) []Feature {
 	add("pathItemRef", "nonschema-ref", func(b *BundleSpec, s int) {
 		b.Add(RootFile, P(J{"get": J{"operationId": "getShared", "responses": J{"200": J{"description": "ok", "schema": J{"type": "string"}}}}}, "x-pathitems", "shared"),
 			P(J{"$ref": "#/x-pathitems/shared"}, "paths", "/pi"))
+	})
+	add("pathItemRefWithSchemas", "nonschema-ref", func(b *BundleSpec, s int) {
+		// a shared path item whose operations carry inline complex schemas, a local $ref and path-level parameters
+		b.Add(RootFile, P(simpleObj("piLocal"), "definitions", "piLocal"),
+			P(J{"parameters": []any{J{"name": "body", "in": "body", "schema": simpleObj("piBody")}},
+				"post": J{"operationId": "postShared", "responses": J{"200": J{"description": "ok", "schema": LocalRef("piLocal")}, "default": J{"description": "d", "schema": J{"type": "array", "items": simpleObj("piItem")}}}}}, "x-pathitems", "withSchemas"),
+			P(J{"$ref": "#/x-pathitems/withSchemas"}, "paths", "/pis"))
+	})
+	add("pathItemRefWithAuxSchema", "nonschema-ref", func(b *BundleSpec, s int) {
+		b.Add(AuxA, P(simpleObj("piAux"), "definitions", "piAux"))
+		b.Add(RootFile, P(J{"put": J{"operationId": "putShared", "parameters": []any{J{"name": "body", "in": "body", "schema": J{"$ref": AuxA + "#/definitions/piAux"}}},
+			"responses": J{"200": J{"description": "ok", "schema": J{"type": "array", "items": J{"$ref": AuxA + "#/definitions/piAux"}}}}}}, "x-pathitems", "withAux"),
+			P(J{"$ref": "#/x-pathitems/withAux"}, "paths", "/pia"))
+	})
+	add("pathItemRefTwice", "nonschema-ref", func(b *BundleSpec, s int) {
+		// the same shared path item mounted under two paths
+		b.Add(RootFile, P(J{"get": J{"responses": J{"200": J{"description": "ok", "schema": simpleObj("twice")}}}}, "x-pathitems", "twice"),
+			P(J{"$ref": "#/x-pathitems/twice"}, "paths", "/t1"), P(J{"$ref": "#/x-pathitems/twice"}, "paths", "/t2"))
+	})
+	add("paramRefWithAuxSchema", "nonschema-ref", func(b *BundleSpec, s int) {
+		// shared body parameter and shared response, both used by $ref from two operations, whose schemas point into an auxiliary file
+		b.Add(AuxA, P(simpleObj("shAux"), "definitions", "shAux"))
+		b.Add(RootFile, P(J{"name": "body", "in": "body", "schema": J{"$ref": AuxA + "#/definitions/shAux"}}, "parameters", "shBody"),
+			P(J{"description": "shared", "schema": J{"type": "array", "items": J{"$ref": AuxA + "#/definitions/shAux"}}}, "responses", "shResp"))
+		for _, m := range []string{"put", "patch"} {
+			b.Add(RootFile, P(J{"operationId": m + "Sh", "parameters": []any{J{"$ref": "#/parameters/shBody"}}}, "paths", "/sh", m),
+				P(J{"$ref": "#/responses/shResp"}, "paths", "/sh", m, "responses", "200"))
+		}
 	})
 	add("itemsInParam", "nonschema", func(b *BundleSpec, s int) {
 		b.Add(RootFile, P(J{"operationId": "headP", "parameters": []any{J{"name": "ids", "in": "query", "type": "array", "items": J{"type": "array", "items": J{"type": "string"}}}}}, "paths", BasePath, "head"),
